@@ -292,6 +292,35 @@ def send_put_before_trigger():
     return put < trig
 
 
+def settings_plain_get():
+    """common/settings.py / common/timeouts.py: every duration the communication state machine reads is taken from the keyword
+    arguments with `kwargs.get(<name>, <default>)` and nothing else (no truthiness fallback such as `... or default`: 0 is a value)"""
+    init = G.P.find_function(G.parse("common/settings.py"), "Settings", "__init__")
+    delay_ok, delay_default = False, None
+    for st in init.body:
+        if isinstance(st, ast.Assign) and G.P.dotted(st.targets[0]) == "self._establish_communication_timeout":
+            v = st.value
+            if isinstance(v, ast.Call) and G.P.dotted(v.func) == "kwargs.get" and len(v.args) == 2 and isinstance(v.args[0], ast.Constant) \
+                    and v.args[0].value == "establish_communication_timeout" and isinstance(v.args[1], ast.Constant) and not v.keywords:
+                delay_ok, delay_default = True, v.args[1].value
+    if delay_default is None:
+        delay_default = 0
+    ttree = G.parse("common/timeouts.py")
+    tinit = G.P.find_function(ttree, "Timeouts", "__init__")
+    t_ok = False
+    for n in ast.walk(tinit):
+        if isinstance(n, ast.Assign) and isinstance(n.targets[0], ast.Subscript) and G.P.dotted(n.targets[0].value) == "self._data":
+            t_ok = ast.unparse(n.targets[0].slice) == "timeout.name" and ast.unparse(n.value) == "kwargs.get(timeout.name, timeout.default)"
+    # the machine reads them when the state is entered
+    cinit = G.parse("gem/communication_state_machine.py")
+    reads = []
+    for meth, want in (("_on_state_wait_cra", "self._settings.timeouts.t3"), ("_on_state_wait_delay", "self._settings.establish_communication_timeout")):
+        fn = G.P.find_function(cinit, "CommunicationStateMachine", meth)
+        timers = [n for n in ast.walk(fn) if isinstance(n, ast.Call) and G.P.dotted(n.func) == "threading.Timer"]
+        reads.append(len(timers) == 1 and len(timers[0].args) >= 1 and G.P.dotted(timers[0].args[0]) == want)
+    return delay_ok, int(delay_default), t_ok, all(reads)
+
+
 def lean_pairs(ps):
     return "[" + ", ".join(f"({s}, {f})" for s, f in ps) + "]"
 
@@ -365,6 +394,14 @@ def unit_Callbacks():
         and G.P.dotted(ifs[0].test.comparators[0]) == "self._callback_handler"
     out.append("/-- `_handle_stream_function` goes to `_handle_unknown_functions` exactly when the name is `not in self._callback_handler` (no other condition) -/")
     out.append(f"def unknownIffNoCallback : Bool := {str(only_contains).lower()}\n")
+    d_ok, d_def, t_ok, reads = settings_plain_get()
+    out.append("/-- `Settings.__init__`: `kwargs.get(\"establish_communication_timeout\", <default>)`, nothing else; `Timeouts.__init__`:")
+    out.append("`kwargs.get(timeout.name, timeout.default)`; the two timer handlers pass `settings.timeouts.t3` resp.")
+    out.append("`settings.establish_communication_timeout`, read when the state is entered, to `threading.Timer` -/")
+    out.append(f"def establishDelayPlainGet : Bool := {str(d_ok).lower()}")
+    out.append(f"def establishDelayDefault : Nat := {d_def}")
+    out.append(f"def timeoutsPlainGet : Bool := {str(t_ok).lower()}")
+    out.append(f"def timersReadSettings : Bool := {str(reads).lower()}\n")
     spt = send_put_before_trigger()
     out.append("/-- `Protocol.send_message`: the block is queued before the protocol thread is triggered -/")
     out.append(f"def sendPutBeforeTrigger : Bool := {str(spt).lower()}\n")
@@ -376,7 +413,8 @@ def unit_Callbacks():
     G.FACTS["Callbacks"] = {"builtin": {c: builtin[c] for c in HANDLER_CLASSES}, "catalogue": [(s, f) for s, f, _, _ in cat],
                             "replyRequired": req, "streamsWithF0": sorted({s for s, f, _, _ in cat if f == 0}),
                             "unknownReply": list(unk[0]), "abortFunction": ab[0][1], "protocolHooks": proto, "commWiring": wiring,
-                            "dispatch": rows, "linkLossStates": loss, "waiterRepliesOnly": wro, "sendPutBeforeTrigger": spt, "registeredFirst": reg_first,
+                            "dispatch": rows, "linkLossStates": loss, "waiterRepliesOnly": wro, "sendPutBeforeTrigger": spt, "establishDelayPlainGet": d_ok, "establishDelayDefault": d_def,
+                            "timeoutsPlainGet": t_ok, "timersReadSettings": reads, "registeredFirst": reg_first,
                             "containsEither": either, "unknownIffNoCallback": only_contains}
 
 
